@@ -54,7 +54,7 @@ def gen_params(rng, fam, allow_k5=False, boundary=True):
         if rng.random() < 0.4:
             p["transform_case"] = rng.choice(["lower", "upper", "LOWER", "Upper"])
         if rng.random() < 0.45:
-            strips = [True, " ", "-_", "\t\n ", "."]
+            strips = [True, True, True, " ", "-_", "\t\n ", "."]
             if allow_k5 or not p.get("transform_case"):
                 strips += ["xX", "aB"]
             p["transform_strip"] = rng.choice(strips)
@@ -158,9 +158,13 @@ def gen_field(rng, fam=None, depth=1, families=None, allow_k5=False, cfg_items=F
 
 def _str_pool(rng, f):
     p = model._str_params(f)
-    out = ["", " ", "abc", "ABC", "MiXed", "\u00e9", "\u00df", "a\n", "  ab  ", "--ab__", "x", "xabX", "a b", ".a.", "\tq\n"]
+    out = ["", " ", "abc", "ABC", "MiXed", "\u00e9", "\u00df", "a\n", "  ab  ", "--ab__", "x", "xabX", "a b", ".a.", "\tq\n",
+           # padding by whitespace that is not ASCII (str.strip() without argument removes it, a character list does not)
+           "\u00a0ab\u00a0", "\u3000", "\x85ab", "ab\x1f", "\u2003 ab \u2028", "\u00a0", "a\u00a0b",
+           # text that looks like an escape of some document format
+           "First_x0020_Name", "a_x000A_b", "&#65;", "%41", "\\n"]
     for c in (p.get("choices") or []):
-        out += [c, c.upper(), c.lower(), " " + c + " ", c + "x", "-" + c + "_"]
+        out += [c, c.upper(), c.lower(), " " + c + " ", c + "x", "-" + c + "_", "\u00a0" + c + "\u3000", c + "\x85"]
     if p.get("regex"):
         for rx, good, bad in REGEXES:
             if rx == p["regex"]:
@@ -237,7 +241,7 @@ def candidates(rng, f, n, env=None):
         pool = ["tk%016x" % rng.getrandbits(64), "", "pass word", "\u00e9\u4e2d", "x" * 50, "a", "p" * 16, "q" * 32, "\u00e9" * 8,
                 "sixteen-bytes-ok" + chr(1), "r" * 48, "block-aligned-16"]
     elif fam == "challenge":
-        pool = ["pw", b"pw", "", b"", "\u00e9", "x" * 200, DigestSpec(f["params"].get("hash_algorithm", "sha256"), "pw"),
+        pool = ["pw", b"pw", "", b"", "\u00e9", "x" * 200, "abcd:efgh", "user:pass", ":", "QUJD:REVG", "a:b", DigestSpec(f["params"].get("hash_algorithm", "sha256"), "pw"),
                 DigestSpec(f["params"].get("hash_algorithm", "sha256"), b"\x00\x01")]
     elif fam == "any":
         pool = WILD
